@@ -180,8 +180,8 @@ def _arg_for(cf, pname):
         if kw.arg == pname:
             return kw.value
     pn = [a.arg for a in cf.callee.params]
-    if cf.callee.cls is not None and not cf.callee.is_static and isinstance(cf.node.func, ast.Attribute) and pn and pn[0] in ("self", "cls"):
-        pn = pn[1:]
+    if cf.callee.cls is not None and not cf.callee.is_static and (isinstance(cf.node.func, ast.Attribute) or cf.callee.name == "__init__") and pn and pn[0] in ("self", "cls"):
+        pn = pn[1:]  # (bound call, or a constructor call `Cls(...)` that runs __init__)
     if pname in pn:
         i = pn.index(pname)
         if i < len(cf.node.args) and not any(isinstance(a, ast.Starred) for a in cf.node.args[: i + 1]):
